@@ -484,10 +484,10 @@ Theorem early_return_residual_partial : forall e index c1 c2 velocityMid fields 
   findPlasmaProfilePoint e index c1 c2 velocityMid fields dPhidz D Tplus Tminus = Some (T, v) ->
   0 <= F tmin -> T = tmin /\ v = plasmaVelocity e fields T (c1 - Tout30).
 Proof.
-  intros e index c1 c2 velocityMid fields dPhidz D Tplus Tminus T v Tout30 Tout33 F tmin H Hpos.
+  intros e index c1 c2 velocityMid fields dPhidz D Tplus Tminus T v. cbv zeta. intros H Hpos.
   destruct (point_cases e index c1 c2 velocityMid fields dPhidz D Tplus Tminus) as [T' [v' [H' O]]].
   rewrite H in H'. injection H' as <- <-.
-  destruct O as [_ A B | N _ _ | ? ? ? ? N _ _ _ _ _ _ _]; [split; assumption | | ]; exfalso; unfold F, tmin, Tout30, Tout33 in Hpos; cbv beta in Hpos, N; lra.
+  destruct O as [_ A B | N _ _ | ? ? ? ? N _ _ _ _ _ _ _]; [split; assumption | | ]; exfalso; cbv beta in Hpos, N; lra.
 Qed.
 Print Assumptions early_return_residual_partial.
 
